@@ -516,7 +516,9 @@ def run(w: Workload):
     split = []  # big sidecars are spread over several jobs (every stride-th table) for load balance
     for j in tjobs:
         n = len(row_types(j["host"], j["targets"]))
-        total = n + (n * n if max2 is None else min(n * n, max2)) + min(n ** 3, max3)
+        if not quick and n > 16:
+            j["max3"] = 1500
+        total = n + (n * n if max2 is None else min(n * n, max2)) + min(n ** 3, j["max3"])
         stride = max(1, -(-total // 500))
         split += [dict(j, stride=stride, offset=o) for o in range(stride)]
     results = _par(split)
@@ -529,7 +531,7 @@ def run(w: Workload):
     ex3 = all(m["exhaustive3"] and m["exhaustive2"] for m in merged.values())
     w.part("tables", cases=n, bound="templates <= 3 tokens + 8 hand-picked nested shapes; all 1-row tables; 2-row tables: " +
            ("all" if not quick else "all when <= 100 per sidecar, else a seeded sample of 100") + "; 3-row tables: " +
-           ("all when <= 4096 per sidecar, else a seeded sample of 4096" if not quick else "seeded sample of 25 per sidecar") +
+           ("all for sidecars with <= 16 row types (<= 4096 tables), else a seeded sample of 1500" if not quick else "seeded sample of 25 per sidecar") +
            "; 3 file column orders rotated", exhaustive=ex3, sidecars=len(tjobs),
            sidecars_fully_enumerated=sum(1 for m in merged.values() if m["exhaustive3"] and m["exhaustive2"]))
 
